@@ -24,8 +24,8 @@ for d in sorted(glob.glob(os.path.join(VERIF, "seeded", "*"))):
     summ = " ".join(m.get("summary", "").split())
     needs = " ".join(m.get("needs", "").split())
     rows.append("| %s | %s | %s | %s | demo %s/%s, 66 baseline tests %s | %s |" % (
-        os.path.basename(d), m.get("property"), (summ[:230] + "...") if len(summ) > 230 else summ,
-        (needs[:200] + "...") if len(needs) > 200 else needs,
+        os.path.basename(d), m.get("property"), (summ[:160] + "...") if len(summ) > 160 else summ,
+        (needs[:140] + "...") if len(needs) > 140 else needs,
         ev.get("demo_exit_clean"), ev.get("demo_exit_patched"), "pass" if ev.get("baseline_66_pass") else "FAIL", "; ".join(caught)))
 print("| id | written for | change | needs, to manifest | confirmed | checks (quick tier) |")
 print("|---|---|---|---|---|---|")
